@@ -31,12 +31,12 @@ RULE = ("cases: fitter configurations (grid, law, A_V range, format/memmap/filte
         "fits with condition number <= 1e4")
 ASSUMPTIONS = ["finite value alphabets for real-valued inputs (see DESIGN.md section 0)",
                "condition number of the regression <= 1e4", "limits closer than 1e-9 dex to the fitted model are ambiguous"]
-REQUIRED_CLASSES = ['law-read-from-a-file-with-the-wavelength-column-last', 'two-fitted-bands-with-nearly-equal-k', 'grid-of-hundreds-of-models', 'integer-typed-photometry', 'convolved-files-in-Jy', 'band-on-last-node-of-law', 'gzipped-convolved-files', 'law-in-other-unit', 'two-limits-different-confidence', 'av-interior', 'av-clamped-lo', 'av-clamped-hi', 'av-pinned', 'no-limit', 'limit-satisfied', 'limit-violated',
+REQUIRED_CLASSES = ['filter-list-mixing-wavelengths-and-names', 'law-read-from-a-file-with-the-wavelength-column-last', 'two-fitted-bands-with-nearly-equal-k', 'grid-of-hundreds-of-models', 'integer-typed-photometry', 'convolved-files-in-Jy', 'band-on-last-node-of-law', 'gzipped-convolved-files', 'law-in-other-unit', 'two-limits-different-confidence', 'av-interior', 'av-clamped-lo', 'av-clamped-hi', 'av-pinned', 'no-limit', 'limit-satisfied', 'limit-violated',
                     'limit-violated-conf1', 'k0-band-fitted', 'duplicate-model-tied', 'float32-path', 'flag4-fitted', 'negative-range']
 TIMEOUT = {'quick': 300, 'thorough': 1800}
 
 RANGES = [(0.0, 40.0), (0.0, 0.0), (2.5, 2.5), (5.0, 7.0), (-3.0, -1.0), (0.0, 1.0)]
-VARIANTS = [('v1', False, False), ('v2', True, False), ('v2', False, False), ('v2', True, True), ('v1gz', False, False), ('v1Jy', False, False)]   # fmt (gz: gzipped convolved files), memmap, filters given as wavelengths
+VARIANTS = [('v1', False, False), ('v2', True, False), ('v2', False, False), ('v2', True, True), ('v1gz', False, False), ('v1Jy', False, False), ('v2', True, 'mixed'), ('v2', False, 'mixed')]   # fmt (gz: gzipped convolved files), memmap, filters given as wavelengths ('mixed': wavelengths and names alternate, a wavelength first)
 BIG_FLAGS = [(1, 1, 1, 1, 1), (1, 4, 1, 3, 2), (4, 4, 4, 4, 4), (1, 0, 9, 1, 1), (3, 1, 1, 1, 2), (1, 1, 0, 0, 4), (2, 2, 1, 1, 1), (1, 3, 1, 3, 1)]
 BANDSETS = {2: ['B1', 'B3'], 3: ['B1', 'B3', 'B5'], 4: ['B1', 'B2', 'B4', 'B5'], 5: ['B1', 'B2', 'B3', 'B4', 'B5']}
 
@@ -49,6 +49,8 @@ def setup(tier, seed):
         if tier == 'quick' and n == 2 and (iv != 0 or g != 0):
             continue
         if iv in (4, 5) and (g != 0 or n != 3 or law not in ('power', 'three')):
+            continue
+        if iv in (6, 7) and (g != 0 or n not in (3, 4) or law not in ('power', 'nonmono') or (iv == 7 and ir not in (0, 5))):
             continue
         if law == 'edge' and (iv not in (0, 2) or g != 0 or n == 2):
             continue
@@ -108,6 +110,9 @@ def run_case(ctx, case, rec, d):
     if fmt.endswith('Jy'):
         rec.cls('convolved-files-in-Jy')
     md = fc.build_package(d, 'pkg', spec)
+    if bywav == 'mixed':
+        bywav = [j % 2 == 0 for j in range(len(bands))]
+        rec.cls('filter-list-mixing-wavelengths-and-names')
     fitter = fc.make_fitter(md, bands, law, (avlo, avhi), memmap=memmap, by_wavelength=bywav)
     f32 = fc.observed_f32(fitter)
     if f32:
